@@ -152,6 +152,13 @@ def _case(draw: Any, max_ticks: int) -> dict[str, Any]:
         # the term's fallback fetcher raises a ReceiverError that is not a stop instead of delivering its sample of that tick
         fb_errors = draw(st.lists(st.tuples(st.integers(0, nterms - 1), st.integers(1, nticks - 1)).map(list),
                                   min_size=1, max_size=2, unique_by=tuple))
+    if draw(st.integers(0, 9)) == 0:
+        # scripted: a term fails early, and well after its fallback took over the fallback raises, then the primary
+        j, t0 = draw(st.integers(0, nterms - 1)), draw(st.integers(0, 2))
+        k = t0 + draw(st.integers(6, 8))
+        if k + 3 <= nticks:
+            script[t0][j][0] = False
+            fb_errors, errors = [[j, k]], [[j, k + 1]]
     return {
         "fb_errors": fb_errors,
         "errors": errors,
@@ -161,6 +168,8 @@ def _case(draw: Any, max_ticks: int) -> dict[str, Any]:
         "lag": [draw(st.sampled_from([0, 0, 1, 2])) for _ in range(nterms)],
         "fb_first": draw(st.booleans()),
         "close": close,
+        # a freshly subscribed fallback stream starts with the tick of the subscription or one or two ticks later
+        "fb_delay": [draw(st.sampled_from([0, 0, 1, 2])) for _ in range(nterms)],
     }
 
 
@@ -181,6 +190,7 @@ def run_case(case: Any, pid: str) -> Verdict:
     del pid
     v = Verdict()
     ninv, lag = case["ninv"], case["lag"]
+    fb_delay = case.get("fb_delay") or [0] * len(ninv)
     nterms, nticks = len(ninv), len(case["script"])
     # three more ticks with everything valid are fed after the scripted ones and not judged: an output that the
     # scripted faults delayed by a tick is flushed instead of looking lost at the end of the run
@@ -260,8 +270,11 @@ def run_case(case: Any, pid: str) -> Verdict:
                         continue
                     if "_fallback_" in req.namespace:
                         j_fb = term_of[req.component_id][0]
-                        info.setdefault("fb_first_tick", {}).setdefault(j_fb, tick)
-                    subs[name] = {"cid": req.component_id, "next": tick, "fallback": "_fallback_" in req.namespace,
+                        first = tick + fb_delay[j_fb]
+                        info.setdefault("fb_first_tick", {}).setdefault(j_fb, first)
+                    else:
+                        first = tick
+                    subs[name] = {"cid": req.component_id, "next": first, "fallback": "_fallback_" in req.namespace,
                                   "sender": registry.get_or_create(Sample[Quantity], name).new_sender(), "closed": False,
                                   "name": name}
 
@@ -329,7 +342,7 @@ def run_case(case: Any, pid: str) -> Verdict:
                 v.fail(f"term {j}: primary invalid at tick {started[j]} but the fallback formula never subscribed to its components")
             fb_from[j] = nticks
         # bounded start-up delay: the fallback stream starts at most (max delivery lag + 2) ticks after the failure
-        if fb_from[j] - started[j] > max(lag) + 3 and fb_from[j] < nticks:
+        if fb_from[j] - started[j] > max(lag) + 3 + fb_delay[j] and fb_from[j] < nticks:
             v.fail(f"term {j}: fallback stream starts at tick {fb_from[j]}, {fb_from[j] - started[j]} ticks after the first "
                    f"invalid primary sample (tick {started[j]})")
         blind |= set(range(started[j], fb_from[j]))
@@ -342,10 +355,14 @@ def run_case(case: Any, pid: str) -> Verdict:
         # still running ahead drops that re-aligning round and postpones it by the same two ticks (during
         # which the term serves the valid fallback value of the right timestamp), so the windows chain.
         ahead_until = fb_from[j]
+        # ticks of rounds dropped because both sources of this term raised (see below): a re-aligning round as well
+        dropped = {t for (je, ke) in fb_errors if je == j and (je, ke) in errors for t in (ke, ke + 1)}
         for ke in sorted(ke for (je, ke) in errors if je == j):
-            if ke <= ahead_until:
-                blind |= {ke, ke + 1, ke + 2}
-                ahead_until = ke + 2
+            if ke <= ahead_until or ke in dropped:
+                # the error path waits for the fallback's next sample, which can lie ahead (a stream that starts late)
+                upto = max(ke, min(fb_from[j], nticks)) + 2
+                blind |= set(range(ke, upto + 1))
+                ahead_until = upto
     for (je, ke) in fb_errors:
         # both sources of a term raise at the same tick (primary closed or raising, fallback raising): the round is
         # dropped and the next one re-synchronises, like for a closed stream without a delivering fallback
@@ -358,15 +375,17 @@ def run_case(case: Any, pid: str) -> Verdict:
             v.fail(f"output stamped {s.timestamp} is not one of the {nfeed} input timestamps")
             continue
         by_tick.setdefault(int(k), []).append(s)
-    order = [int((s.timestamp - world.T0).total_seconds()) for s in outputs]
+    # order and multiplicity are judged outside the unjudged windows only: while a term is being aligned with a
+    # fallback stream whose first sample lies ahead, a tick can be emitted from the fallback and again from the primary
+    order = [k for k in (int((s.timestamp - world.T0).total_seconds()) for s in outputs) if k not in blind]
     if order != sorted(order):
         v.fail(f"outputs are not in timestamp order: {order}")
     for k in range(nticks):
         outs = by_tick.get(k, [])
+        if k in blind:
+            continue
         if len(outs) > 1:
             v.fail(f"tick {k}: {len(outs)} outputs")
-            continue
-        if k in blind:
             continue
         expected: float | None = 0.0
         for j in range(nterms):
